@@ -222,13 +222,14 @@ pub fn run(ctx: &Ctx, rep: &mut Report) {
                     "deploy" => rng.bytes32(),
                     _ => native_id,
                 },
-                source: rng.bytes_of(&[0, 1, 20, 32]),
+                // sizes straddle the thresholds an implementation might switch behaviour at
+                source: rng.bytes_of(&[0, 1, 20, 32, 32, 20, 300, 1500, 5000, 17000]),
                 recipient: if kind == "transfer-with-data" { w.app.clone() } else { w.users[rng.usize(3)].clone() },
                 amount: match kind {
                     "transfer-lock" => 1 + rng.below(custody.max(1) as u64) as u128,
                     _ => *rng.pick(&[1u128, 1000, 1u128 << 100]),
                 },
-                data: if kind == "transfer-with-data" { rng.bytes_of(&[1, 7, 32, 40]) } else { vec![] },
+                data: if kind == "transfer-with-data" { rng.bytes_of(&[1, 7, 32, 40, 40, 7, 1100, 4100, 9000]) } else { vec![] },
                 name: "Remote Ⓣ".as_bytes().to_vec(),
                 symbol: b"RMT".to_vec(),
                 decimals: *rng.pick(&[0u8, 6, 255]),
